@@ -36,6 +36,12 @@ type sessionDef struct {
 	ot string
 	// thorough: not part of the quick tier
 	thorough bool
+	// sizes: input sizes for unsized arguments (slices)
+	sizes [][]int
+	// allValues: in addition to the mask list, EVERY value of every printable byte among the first 256 bytes of
+	// the garbler->evaluator stream (the program information: names and type strings) is tried (quick: every value
+	// of the digit bytes, four masks on the other printable bytes)
+	allValues bool
 }
 
 var sessions = []sessionDef{
@@ -53,6 +59,7 @@ var sessions = []sessionDef{
 	// compound (struct) or array argument has member sizes / an element type besides its total size
 	{name: "stream-structarg/ideal", stream: true, src: "package main\ntype Args struct {\n\tb uint8\n\tc uint8\n}\nfunc main(a uint8, e Args) uint8 {\n\treturn a + e.b + (e.c << 1)\n}\n", g: "90", es: []string{"0x33", "0x11"}, ot: "ideal"},
 	{name: "stream-arrayarg/ideal", stream: true, src: "package main\nfunc main(a uint8, e [2]uint8) uint8 {\n\treturn a + e[0] + (e[1] << 1)\n}\n", g: "90", e: "0x3311", ot: "ideal"},
+	{name: "stream-slicearg/ideal", stream: true, allValues: true, sizes: [][]int{{8}, {32}}, src: "package main\nfunc main(a uint8, e []uint8) uint8 {\n\treturn a ^ e[0]\n}\n", g: "0", e: "0x01020304", ot: "ideal"},
 	{name: "xor72/ideal", src: "package main\nfunc main(a, b uint72) uint72 {\n\treturn a ^ b\n}\n", g: "0", e: "0xffffffffffffffffff", ot: "ideal"},
 	{name: "stream-or130/ideal", stream: true, thorough: true, src: "package main\nfunc main(a, b uint130) uint130 {\n\treturn a | b\n}\n", g: "1", e: "0x3fffffffffffffffffffffffffffffffe", ot: "ideal"},
 	{name: "cmp9-2out/co", thorough: true, src: "package main\nfunc main(a int9, b int9) (int9, bool) {\n\tif a > b {\n\t\treturn a - b, true\n\t}\n\treturn b - a, false\n}\n", g: "300", e: "17", ot: "co"},
@@ -71,7 +78,7 @@ func compiled(si int) *circuit.Circuit {
 		c = s.circ.Build()
 	} else {
 		var err error
-		c, _, err, _ = mpcl.Compile(s.src, mpcl.Opts{}, nil)
+		c, _, err, _ = mpcl.Compile(s.src, mpcl.Opts{}, s.sizes)
 		if err != nil {
 			panic("session program does not compile: " + err.Error())
 		}
@@ -96,7 +103,7 @@ func runSession(si int, o sess.Opts) *sess.Result {
 		if s.es != nil {
 			ein = s.es
 		}
-		return sess.RunStream(s.src, []string{s.g}, ein, nil, o)
+		return sess.RunStream(s.src, []string{s.g}, ein, s.sizes, o)
 	}
 	return sess.RunCircuit(compiled(si), parseIn(s.g), parseIn(s.e), o)
 }
@@ -147,6 +154,9 @@ func runCase(ctx *runner.Ctx, k cs) {
 	ctx.Eval(1)
 	s := sessions[k.Session]
 	o := sess.Opts{Seed: 7}
+	// digitToDigit: a single-byte corruption that turns one ASCII digit into another (a width inside a type string)
+	digitToDigit := false
+	isDigit := func(c byte) bool { return c >= '0' && c <= '9' }
 	if k.Dir != "none" {
 		o.Corrupt = func(dir string, off int64, p []byte) {
 			if dir != k.Dir {
@@ -155,6 +165,9 @@ func runCase(ctx *runner.Ctx, k cs) {
 			for i := 0; i < k.Len; i++ {
 				pos := int64(k.Off+i) - off
 				if pos >= 0 && pos < int64(len(p)) {
+					if k.Len == 1 && isDigit(p[pos]) && isDigit(p[pos]^byte(k.Mask)) {
+						digitToDigit = true
+					}
 					p[pos] ^= byte(k.Mask)
 				}
 			}
@@ -178,7 +191,11 @@ func runCase(ctx *runner.Ctx, k cs) {
 			same = r.GOut[i].Cmp(want[i]) == 0
 		}
 		if !same {
-			ctx.Violate(fmt.Sprintf("wrong-result.%s.%s", mode, k.Dir),
+			key := fmt.Sprintf("wrong-result.%s.%s", mode, k.Dir)
+			if digitToDigit && s.stream && k.Dir == "g2e" && k.Off < 256 {
+				key += ".type-width-digit"
+			}
+			ctx.Violate(key,
 				fmt.Sprintf("garbler returned %v without error; correct is %v (session %s, %s byte %d len %d xor %#x; evaluator err=%v, scheduler outcome %s)", r.GOut, want, s.name, k.Dir, k.Off, k.Len, k.Mask, r.EErr, r.Outcome), k)
 			return
 		}
@@ -240,6 +257,24 @@ func work(ctx *runner.Ctx) {
 		muts := []mut{{1, 0x01}, {1, 0x80}, {1, 0xff}, {2, 0xff}, {16, 0xff}, {32, 0xff}}
 		if !quick {
 			muts = []mut{{1, 0x01}, {1, 0x02}, {1, 0x04}, {1, 0x08}, {1, 0x10}, {1, 0x20}, {1, 0x40}, {1, 0x80}, {1, 0xff}, {2, 0xff}, {4, 0xff}, {16, 0xff}, {17, 0x55}, {32, 0xff}, {32, 0x80}, {48, 0xff}}
+		}
+		if sessions[si].allValues {
+			for off := 0; off < len(r.G2E) && off < 256; off++ {
+				if c := r.G2E[off]; c < 0x20 || c > 0x7e {
+					continue
+				}
+				digit := r.G2E[off] >= '0' && r.G2E[off] <= '9'
+				for m := 1; m < 256; m++ {
+					if m == 0x01 || m == 0x80 || m == 0xff {
+						continue // in the mask list
+					}
+					// quick: every value of the digits (widths and counts inside type strings), four masks elsewhere
+					if quick && !digit && m != 0x20 && m != 0x0c && m != 0x0a && m != 0x09 {
+						continue
+					}
+					cases = append(cases, cs{Session: si, Dir: "g2e", Off: off, Len: 1, Mask: m})
+				}
+			}
 		}
 		for dir, n := range map[string]int{"g2e": len(r.G2E), "e2g": len(r.E2G)} {
 			for off := 0; off < n; off++ {
